@@ -182,6 +182,12 @@ Theorem C13_near_miss_never_registered : forall (c : Z) (b b' p' : text),
 Proof. exact twin_never_registered. Qed.
 Print Assumptions C13_near_miss_never_registered.
 
+(* near-misses in platform position: a name that is not a listed platform is refused first *)
+Theorem C13_unknown_platform_rejected_first : forall pl b : text,
+  ~ In pl (map fst platforms) -> validate pl b = Some UnsupportedPlatform.
+Proof. exact unknown_platform_first. Qed.
+Print Assumptions C13_unknown_platform_rejected_first.
+
 (* for ANY tables that pass the translator's obligations and ANY normaliser separating the listed
    ids: lookup by key accepts exactly the strings sharing a key with an id of that platform ... *)
 Theorem C13_keyed_validation_accepts : forall plats b2p (k : text -> text),
@@ -243,7 +249,8 @@ Print Assumptions C13_written_board_verbatim_partial.
 (* source inventory, regenerated from pio.py on every run: validate_platform_board reads
    SUPPORTED_PLATFORMS and BOARD_TO_PLATFORM only; write_project reads validate_platform_board,
    _format_lib_section, _sanitize_env_name, PIO_INI only (and does call the validator); the helpers
-   read nothing but [re]; the module holds no data besides the registry tables and the template *)
+   read nothing but [re]; the module holds no data besides the board sets listed in SUPPORTED_PLATFORMS, that table, its inverse
+   and the template *)
 Theorem C13_source_inventory :
   validate_reads_ok = true /\ write_project_reads_ok = true /\ helpers_read_ok = true /\ module_data_ok = true.
 Proof. exact inventory_ok. Qed.
